@@ -1061,6 +1061,84 @@ func uniqueKeys(names [][]byte) bool {
 	return true
 }
 
+// ---- malformed cursors ---------------------------------------------------------------------------------------------
+
+// doCursor: `cursor <text>` hands arbitrary client text to the cursor parser and to the listing call that takes it.
+// P̂ (clause "decoding arbitrary client-supplied ID text never crashes the server"): an answer or an error, never a
+// panic or a stall.
+func doCursor(ws []string) {
+	line := strings.Join(ws, " ")
+	tb, ok := unhex(ws[1])
+	if !ok {
+		emit(line, "bad-op", "bad-op", false)
+		return
+	}
+	text := string(tb)
+	label := "cursor:refused"
+	out := hx.Call(func() string {
+		if _, _, err := bbs.DeserializeArticleIdxStr(text); err == nil {
+			label = "cursor:parsed"
+		}
+		for _, desc := range []bool{false, true} {
+			_, _, _, _, _, _ = bbs.LoadGeneralArticles("SYSOP", boards["WhoAmI"].bboardID(), text, 3, desc)
+		}
+		return "no-crash"
+	})
+	i := run.Op(line, out, label, true)
+	opCount = i + 1
+	if out != "no-crash" {
+		run.Fail(i, "crash:cursor", fmt.Sprintf("%s on cursor text %q (DeserializeArticleIdxStr / LoadGeneralArticles): %s", out, text, hx.LastPanic))
+	}
+}
+
+// cursorStream: `<time>@<id>` with an id part of every length 0..10 (alphabet characters, NUL, '@', bytes >= 0x80),
+// missing / doubled / leading / trailing '@', empty time, signs, non-digits, overlong numbers, random bytes.
+func cursorStream(r *hx.Rand) {
+	do(resetLine(false), false)
+	alphabet := []byte("0123456789ABCDEFGHIJKLMNOPQRSTUVWXYZabcdefghijklmnopqrstuvwxyz-_")
+	cur := func(s []byte) { do("cursor "+hx.Hex(s), false) }
+	times := []string{"1607202239", "0", "", "-1", "+5", "16072x2239", " 1607202239", "2147483647", "2147483648", "99999999999999999999", "1607203395"}
+	id := []byte("1VrooM21xy")
+	for _, t := range times {
+		for l := 0; l <= 10; l++ {
+			cur([]byte(t + "@" + string(id[:l])))
+		}
+		cur([]byte(t))
+		cur([]byte(t + "@@" + string(id[:8])))
+		cur([]byte(t + "@" + string(id[:8]) + "@"))
+		cur([]byte("@" + t + "@" + string(id[:8])))
+		cur([]byte(t + "@" + string(id[:4]) + "@" + string(id[4:8])))
+	}
+	cur([]byte("@"))
+	cur([]byte("@@"))
+	cur(nil)
+	// the cursor of a real entry, truncated at every length, and with one byte replaced
+	var f ptttype.Filename_t
+	copy(f[:], "M.1607203395.A.00D")
+	real := []byte("1607203395@" + string(bbs.ToArticleID(&f)))
+	for l := 0; l <= len(real); l++ {
+		cur(real[:l])
+	}
+	n := 300
+	if run.Thorough() {
+		n = 6000
+	}
+	for k := 0; k < n; k++ {
+		switch r.Intn(4) {
+		case 0:
+			c := append([]byte{}, real...)
+			c[r.Intn(len(c))] = byte(r.U64())
+			cur(c)
+		case 1:
+			cur([]byte(fmt.Sprintf("%d@%s", r.U64()%3000000000, r.Bytes(r.Intn(11), alphabet))))
+		case 2:
+			cur([]byte(fmt.Sprintf("%d@%s", r.U64()%3000000000, r.Bytes(r.Intn(11), nil))))
+		default:
+			cur(r.Bytes(r.Intn(24), []byte("0123456789@@@-+ aZ_\x00\xff")))
+		}
+	}
+}
+
 // ---- pure forms ---------------------------------------------------------------------------------------------------
 
 func doWebURL(ws []string) {
@@ -1133,6 +1211,9 @@ func do(line string, replay bool) {
 		return
 	case ws[0] == "probe" && len(ws) == 5:
 		doProbe(ws)
+		return
+	case ws[0] == "cursor" && len(ws) == 2:
+		doCursor(ws)
 		return
 	case ws[0] == "lookup" && len(ws) == 3:
 		doLookup(ws)
@@ -1236,6 +1317,7 @@ func generate() {
 		}
 	}
 	lookupStream(r)
+	cursorStream(r)
 	for h := 0; h < nHist; h++ {
 		aid := h%2 == 1
 		do(resetLine(aid), false)
